@@ -16,7 +16,7 @@ namespace Ts.Props.Ties.StmtIters
 open Ts Ts.Stmt Ts.Gen Ts.Gen.ItersGen Ts.Props.Ties.StmtPsi
 
 /-- call `next` until it yields `None` (at most `fuel` times), collecting what it yields -/
-def iterate {α : Type} (next : Self → R (Self × Option α)) : Nat → Self → R (List α)
+def iterate {σ α : Type} (next : σ → R (σ × Option α)) : Nat → σ → R (List α)
   | 0, _ => .ok []
   | fuel+1, s =>
     next s >>= fun r =>
